@@ -42,3 +42,20 @@ def locate(relfile: str, qualname: str):
     if not isinstance(node, ast.FunctionDef):
         raise Drift(f"{relfile}::{qualname} is not a function")
     return mod, node, cls
+
+
+def skeleton(fn_node) -> str:
+    """statement skeleton of a function: the pre-order sequence of statement kinds (expressions ignored)"""
+    import hashlib
+    kinds = []
+
+    def walk(n, depth):
+        for c in ast.iter_child_nodes(n):
+            if isinstance(c, ast.stmt):
+                kinds.append(f"{depth}{type(c).__name__}")
+                walk(c, depth + 1)
+            elif isinstance(c, (ast.ExceptHandler,)):
+                walk(c, depth + 1)
+
+    walk(fn_node, 0)
+    return hashlib.sha1(" ".join(kinds).encode()).hexdigest()[:12]
